@@ -1,6 +1,209 @@
-(* C04 -- statements only (being extended) *)
-From PV Require Import C04.Spec C04.Proofs.
+(* C04 -- pids(), pid_exists() and process_iter() give one coherent, cached process list.
+   Statements only; proofs live in C04/Proofs*.v.  Model: C04/Model.v (transcription of
+   psutil/__init__.py pids / pid_exists / process_iter / cache_clear / is_running / as_dict
+   and psutil/_pslinux.py pids / pid_exists), specification and ghost bookkeeping:
+   C04/Spec.v.  [final valid h] is the machine state after the history h (any sequence of
+   kernel events and psutil calls, any number of generators advanced in any interleaving),
+   [irun valid h] the same with the per-generator ghost records. *)
+From PV Require Import C04.Spec C04.Proofs C04.ProofsTable C04.ProofsIter.
+
+(* ---- text level ---- *)
+
+(* every procfs root listing (thread-group ids in decimal among arbitrary non-numeric
+   names): pids() = the ascending numeric entries, first = smallest *)
+Theorem C04_listing_exact : forall d,
+  forallb wf_dirent d = true -> spec_dir_pids d <> [] ->
+  exists low r, pids_text (k_listdir d) = Val (low :: r, low)
+                /\ low :: r = zsort (spec_dir_pids d)
+                /\ StronglySorted Z.le (low :: r)
+                /\ (forall n, In n (low :: r) <-> In n (spec_dir_pids d))
+                /\ (forall n, In n (spec_dir_pids d) -> low <= n).
+Proof. exact pids_text_exact. Qed.
+Print Assumptions C04_listing_exact.
+
+(* every kernel-printed /proc/<n>/status: the scan returns the value of the Tgid line *)
+Theorem C04_status_tgid : forall r,
+  wf_kstatus r = true -> status_tgid (k_status r) = Val (dec_val (ks_tgid r)).
+Proof. exact status_tgid_exact. Qed.
+Print Assumptions C04_status_tgid.
+
+(* _pslinux.pid_exists over such a file: Tgid == pid when kill(pid, 0) succeeded or was
+   denied, False on ESRCH / OverflowError; never an exception *)
+Theorem C04_pid_exists_text : forall pid k r names,
+  wf_kstatus r = true ->
+  pid_exists_linux pid k (Some (k_status r)) names =
+  Val (match k with KOk | KEperm => dec_val (ks_tgid r) =? pid | _ => false end).
+Proof. exact pid_exists_linux_exact. Qed.
+Print Assumptions C04_pid_exists_text.
+
+(* ---- the process table in every history ---- *)
+
+Theorem C04_table_wf : forall valid h,
+  let t := tbl (final valid h) in
+  NoDup (listing t) /\ (forall k, In k t -> 0 <= k_pid k <= PIDMAX) /\
+  (forall k n, In k t -> In n (k_tids k) -> ~ In n (listing t)).
+Proof. exact wf_final. Qed.
+Print Assumptions C04_table_wf.
+
+(* pids() = strictly ascending list of exactly the listed PIDs; _LOWEST_PID = its minimum *)
+Theorem C04_pids_exact : forall valid h,
+  let s := final valid h in
+  tbl s <> [] ->
+  exists l, snd (step valid s Pids) = OPids l
+            /\ StronglySorted Z.lt l
+            /\ (forall n, In n l <-> In n (listing (tbl s)))
+            /\ (exists low r, l = low :: r /\ lowest (fst (step valid s Pids)) = Some low
+                              /\ forall n, In n (listing (tbl s)) -> low <= n).
+Proof. exact pids_exact_h. Qed.
+Print Assumptions C04_pids_exact.
+
+(* pid_exists(n) = "n is a listed PID", for every integer n; in particular never an exception *)
+Theorem C04_pid_exists_spec : forall valid h n,
+  let s := final valid h in
+  (n = 0 -> tbl s <> []) ->
+  snd (step valid s (PidExists n)) = OBool (zmem n (listing (tbl s))).
+Proof. exact pid_exists_spec_h. Qed.
+Print Assumptions C04_pid_exists_spec.
+
+(* thread ids, negative numbers and numbers beyond pid_t: False *)
+Theorem C04_pid_exists_false : forall valid h n,
+  let s := final valid h in
+  n <> 0 ->
+  (exists k, In k (tbl s) /\ In n (k_tids k)) \/ n < 0 \/ PIDMAX < n ->
+  snd (step valid s (PidExists n)) = OBool false.
+Proof. exact pid_exists_false_h. Qed.
+Print Assumptions C04_pid_exists_false.
+
+(* ---- generators ---- *)
+
+(* what any generator has yielded so far (yields are kept newest first): strictly ascending
+   PIDs without duplicates; each PID was listed when the body was entered; the object is the
+   cached one when the PID was cached and not marked as reused, otherwise one created after the
+   body was entered; with attrs=l every name is valid and the info keys are exactly l (all
+   names for l = []) *)
+Theorem C04_iter_yields : forall valid h g,
+  let gh := snd (irun valid h) g in
+  StronglySorted Z.gt (map ypid (gh_yields gh)) /\
+  forall p o i, In (p, o, i) (gh_yields gh) ->
+    In p (gh_list gh) /\
+    ((dget p (gh_cache gh) = Some o /\ ~ In p (gh_marked gh))
+     \/ (dget p (gh_cache gh) = None /\ (gh_heap0 gh <= o)%nat)) /\
+    match gh_attrs gh with
+    | None => True
+    | Some l => attrs_valid valid l = true /\ i = Some (spec_keys valid l)
+    end.
+Proof. exact iter_yields. Qed.
+Print Assumptions C04_iter_yields.
+
+(* a generator that ran to StopIteration: every PID listed when it was entered was yielded, or
+   left the table meanwhile, or belongs to the class of the known finding (it had a cache
+   entry and was marked as reused, or attrs request ppid) *)
+Theorem C04_iter_complete : forall valid h g,
+  let gh := snd (irun valid h) g in
+  gh_exhausted gh = true ->
+  forall p, In p (gh_list gh) ->
+    In p (map ypid (gh_yields gh)) \/ In p (gh_vanished gh)
+    \/ ((exists o, dget p (gh_cache gh) = Some o) /\ (In p (gh_marked gh) \/ req_ppid valid (gh_attrs gh) = true)).
+Proof. exact iter_complete. Qed.
+Print Assumptions C04_iter_complete.
+
+Theorem C04_iter_complete_clean : forall valid h g,
+  let gh := snd (irun valid h) g in
+  gh_exhausted gh = true ->
+  (forall p, In p (gh_marked gh) -> dget p (gh_cache gh) = None) -> req_ppid valid (gh_attrs gh) = false ->
+  forall p, In p (gh_list gh) -> In p (map ypid (gh_yields gh)) \/ In p (gh_vanished gh).
+Proof. exact iter_complete_clean. Qed.
+Print Assumptions C04_iter_complete_clean.
+
+(* known finding: without the exclusion the statement is false -- a listed, living PID that
+   never left the table is not yielded by a complete iteration *)
+Theorem C04_iter_complete_refuted :
+  exists valid h g p,
+    let sg := irun valid h in
+    let gh := snd sg g in
+    gh_exhausted gh = true /\ In p (gh_list gh) /\ alive (tbl (fst sg)) p = true
+    /\ zmem p (map ypid (gh_yields gh)) = false /\ zmem p (gh_vanished gh) = false.
+Proof. exact iter_complete_refuted. Qed.
+Print Assumptions C04_iter_complete_refuted.
+
+(* next() raises nothing but ValueError for an invalid attribute name (IndexError only on
+   an empty process table, which no kernel has): vanished processes are skipped silently *)
+Theorem C04_iter_exceptions : forall valid h g x,
+  let sg := irun valid h in
+  snd (step valid (fst sg) (IterNext g)) = OExc x ->
+  (x = ValueError /\ exists l, gh_attrs (snd sg g) = Some l /\ attrs_valid valid l = false)
+  \/ (x = IndexError /\ tbl (fst sg) = []).
+Proof. exact iter_exceptions. Qed.
+Print Assumptions C04_iter_exceptions.
+
+(* ---- the cache ---- *)
+
+(* when a generator finishes (exhaustion, close(), exception) the cache becomes: only PIDs that
+   were listed when it was entered (entries of PIDs that went away are dropped), each mapped
+   to the object cached at that time if it was not marked as reused, else to an object created
+   since (marked entries are refreshed or gone); and it holds every object the generator yielded *)
+Theorem C04_cache_after_finish : forall valid h e g,
+  let sg := irun valid h in
+  let r := istep valid sg e in
+  let gh' := snd (fst r) g in
+  let cache' := pmap (fst (fst r)) in
+  gh_done (snd sg g) = false -> gh_done gh' = true -> gh_started gh' = true ->
+  snd r <> OOom -> tbl (fst sg) <> [] ->
+  (forall p o, dget p cache' = Some o ->
+     In p (gh_list gh') /\
+     ((dget p (gh_cache gh') = Some o /\ ~ In p (gh_marked gh')) \/ (gh_heap0 gh' <= o)%nat)) /\
+  (forall p o i, In (p, o, i) (gh_yields gh') -> dget p cache' = Some o).
+Proof. exact finish_installs. Qed.
+Print Assumptions C04_cache_after_finish.
+
+(* nothing else touches the cache: kernel events, pids, pid_exists, creating a generator,
+   is_running leave it alone, and so does a next() that yields *)
+Theorem C04_cache_frame : forall valid s e,
+  match e with
+  | CacheClear | IterNext _ | IterClose _ => True
+  | _ => pmap (fst (step valid s e)) = pmap s
+  end.
+Proof. exact pmap_frame. Qed.
+Print Assumptions C04_cache_frame.
+
+Theorem C04_cache_yield_frame : forall valid h g p ob i,
+  let s := fst (irun valid h) in
+  snd (step valid s (IterNext g)) = OYield p ob i -> pmap (fst (step valid s (IterNext g))) = pmap s.
+Proof. exact pmap_yield. Qed.
+Print Assumptions C04_cache_yield_frame.
 
 Theorem C04_cache_clear_empties : forall valid s, pmap (fst (step valid s CacheClear)) = [].
 Proof. exact cache_clear_empties. Qed.
 Print Assumptions C04_cache_clear_empties.
+
+(* ... and a generator entered while the cache is empty yields only new objects *)
+Theorem C04_cache_clear_fresh : forall valid h g p o i,
+  let gh := snd (irun valid h) g in
+  gh_cache gh = [] -> In (p, o, i) (gh_yields gh) -> (gh_heap0 gh <= o)%nat.
+Proof. exact cache_clear_fresh. Qed.
+Print Assumptions C04_cache_clear_fresh.
+
+(* ---- recycled PIDs ---- *)
+
+(* is_running() on an object not yet flagged: True iff the PID is in the table with the
+   object's start time; a different start time marks the PID in _pids_reused *)
+Theorem C04_is_running_marks : forall valid s o,
+  (o < nobj s)%nat -> o_gone (heap s o) = false -> o_reused (heap s o) = false ->
+  let ob := heap s o in
+  let r := step valid s (IsRunning o) in
+  match find_proc (tbl s) (o_pid ob) with
+  | None => snd r = OBool false /\ reused (fst r) = reused s
+  | Some k =>
+    if k_start k =? o_start ob
+    then snd r = OBool true /\ reused (fst r) = reused s
+    else snd r = OBool false /\ In (o_pid ob) (reused (fst r)) /\ o_reused (heap (fst r) o) = true
+  end.
+Proof. exact is_running_spec. Qed.
+Print Assumptions C04_is_running_marks.
+
+(* a PID marked when a generator is entered is never served from the old cache entry *)
+Theorem C04_reused_refresh : forall valid h g p o i,
+  let gh := snd (irun valid h) g in
+  In (p, o, i) (gh_yields gh) -> In p (gh_marked gh) -> (gh_heap0 gh <= o)%nat.
+Proof. exact reused_refresh. Qed.
+Print Assumptions C04_reused_refresh.
